@@ -208,6 +208,17 @@ CHECKS = {
             "= x for reference-free structs and one-dimensional arrays, nested arbitrarily).",
             "Array-valued hybrid fields are covered by the oracle only.",
             "7/C19"),
+    "C20": ("Lean 4 proof over a model of pickling as a memoised graph copy parameterised by the classes' __getstate__/__setstate__: "
+            "sharing iff shared (injectivity of the memo index), fresh buffers, identical bytes and allocator state; the real "
+            "pickle round trip on importable generated classes as tie and oracle",
+            "Kernel-checked theorems: C20_sharing (two unpickled handles share a buffer exactly when the originals did; offsets and "
+            "classes are kept), C20_independent (every unpickled handle lives in a new buffer; existing buffers are untouched), "
+            "C20_buffer_copied (the duplicate has the same bytes and allocator state), C20_allocator (the allocator invariant of "
+            "C04/C12 carries over), C20_struct_usable (an unpickled struct handle is a view of the copied bytes and reads the "
+            "original's value).",
+            "Partial: pickle itself (memoised traversal, reconstruction order) is assumed - it is the model; witnessed on every run "
+            "by real pickle round trips followed by reads, writes and allocations on the result.",
+            "7/C20"),
 }
 
 NOT_YET = {
